@@ -66,6 +66,43 @@ def merge(cur, val):
     return (k1, tuple(sorted(set(v1) | set(v2))))
 
 
+def enumerate_paths_with_trace(F, target_blocks, start=0, limit=400000):
+    """like enumerate_paths but yields (env, [blocks of the path]); no state merging (every path is kept apart)"""
+    b = F.b
+    targets = set(target_blocks)
+    can = set()
+    for t in targets:
+        can |= b.can_reach(t)
+    stack = [(start, {}, (start,))]
+    n = 0
+    while stack:
+        bb, env, path = stack.pop()
+        n += 1
+        if n > limit:
+            raise RuntimeError('path enumeration limit exceeded')
+        if bb in targets:
+            yield env, path
+            continue
+        t = b.term(bb)
+        if t[0] == 'switch':
+            for dst, lab in b.succ_edges(bb):
+                if dst not in can or b.is_cleanup(dst):
+                    continue
+                ats = atoms_of_edge(F, bb, lab)
+                e2 = dict(env)
+                ok = True
+                for a, v in ats:
+                    if not consistent(e2, a, v):
+                        ok = False; break
+                    e2[a] = merge(e2.get(a), v)
+                if ok:
+                    stack.append((dst, e2, path + (dst,)))
+        else:
+            for dst in b.succ(bb):
+                if dst in can and not b.is_cleanup(dst):
+                    stack.append((dst, env, path + (dst,)))
+
+
 def enumerate_paths(F, target_blocks, start=0, extra_consistency=None, limit=200000):
     """yield dict(atom -> value) for every consistent path from start to a block in target_blocks (loop-free bodies)"""
     b = F.b
